@@ -55,6 +55,13 @@ Stmts ==
       [] Family = "on" ->          \* predicates as the join condition, projection of one column per side
            {SelWhere(JoinOf(TA, TB, k, c), <<Ay, Bx>>, NilF) : k \in Kinds, c \in Preds(AtomsAB, Depth)}
            \cup {All(JoinOf(TA, TB, k, c)) : k \in Kinds, c \in {Eq(Ax, Bx), Lt(Ax, Bx)}}
+           \* a factor from the join condition AND one from the where clause meet in one segment
+           \cup {SelWhere(JoinOf(TA, TB, k, Op("and", <<c, Lt(Ax, Bx)>>)), <<Ay, Bx>>, w) :
+                    k \in Kinds, c \in {Eq(Ax, L1), Eq(Bx, L1)}, w \in {Eq(Ay, L0), Eq(Bx, L0), Lt(Ax, Ay)}}
+      [] Family = "wheresmall" ->  \* deeper predicates over fewer atoms
+           {Where(JoinOf(TA, TB, k, Lt(Ax, Bx)), w) : k \in {"inner", "left", "full"}, w \in Preds(AtomsSmall, Depth)}
+      [] Family = "onsmall" ->
+           {SelWhere(JoinOf(TA, TB, k, c), <<Ay, Bx>>, NilF) : k \in {"inner", "left", "full"}, c \in Preds(AtomsSmall, Depth)}
       [] Family = "self" ->        \* self join through a reference, nested statement as an origin
            {SelWhere(JoinOf(TA, RA, k, c), <<Ax, Rx>>, w) :
                 k \in {"inner", "left"}, c \in {Lt(Ax, Rx), Eq(Ay, Col(RA, "y"))},
